@@ -1564,3 +1564,129 @@ var ruleScopeS10 = &Rule{
 		return obs
 	},
 }
+
+// OUTLINE/descend: who lists the members of a table also lists the members of those members.
+
+var ruleOutlineDescend = &Rule{
+	Name:    "OUTLINE/descend",
+	NeedSSA: true,
+	Text: "a function that produces a symbol entry for a table member — it receives a *VarInfo (receiver) or a map[string]*VarInfo (the members) and builds a FileSymbolStruct " +
+		"or calls resultSorter.collect for it — also walks that member's own SubMaps by calling itself: tables nest to any depth, and `function t.a.f() end` is a " +
+		"function declared in the file like `function t.f() end`",
+	Run: func(c *Ctx) []Ob {
+		var obs []Ob
+		n := 0
+		for _, f := range c.ModFns() {
+			if len(f.Params) == 0 || f.Blocks == nil {
+				continue
+			}
+			// member-shaped input
+			memberIn := false
+			for _, p := range f.Params {
+				t := types.Unalias(p.Type())
+				if _, nm := namedPkgName(t); nm == "VarInfo" && p == f.Params[0] && f.Signature.Recv() != nil {
+					memberIn = true
+				}
+				if m, ok := t.Underlying().(*types.Map); ok {
+					if _, nm := namedPkgName(m.Elem()); nm == "VarInfo" {
+						memberIn = true
+					}
+				}
+			}
+			if !memberIn {
+				continue
+			}
+			emits, recursesOnSub := false, false
+			for _, b := range f.Blocks {
+				for _, ins := range b.Instrs {
+					switch x := ins.(type) {
+					case *ssa.Alloc:
+						if _, nm := namedPkgName(x.Type()); nm == "FileSymbolStruct" {
+							emits = true
+						}
+					case *ssa.Call:
+						g := x.Call.StaticCallee()
+						if g != nil && g.Name() == "collect" && len(x.Call.Args) >= 4 {
+							// collect(name, file, prefix, ...): a member entry when the prefix is the name of the table the
+							// caller was given (a string parameter of its own, possibly extended)
+							pv := x.Call.Args[3]
+							for d := 0; d < 4; d++ {
+								if bo, ok := pv.(*ssa.BinOp); ok && bo.Op == token.ADD {
+									pv = bo.X
+									continue
+								}
+								break
+							}
+							if _, isPar := pv.(*ssa.Parameter); isPar {
+								emits = true
+							}
+						}
+						if g == f {
+							// some argument derives from a SubMaps field
+							for _, a := range x.Call.Args {
+								v := a
+								for d := 0; d < 6 && v != nil; d++ {
+									ld, ok := v.(*ssa.UnOp)
+									if ok && ld.Op == token.MUL {
+										if fa, ok := ld.X.(*ssa.FieldAddr); ok && fieldName(fa.X.Type(), fa.Field) == "SubMaps" {
+											recursesOnSub = true
+										}
+										v = ld.X
+										continue
+									}
+									if ex, ok := v.(*ssa.Extract); ok { // element of a range over SubMaps
+										if nx, ok := ex.Tuple.(*ssa.Next); ok {
+											if rg, ok := nx.Iter.(*ssa.Range); ok {
+												v = rg.X
+												continue
+											}
+										}
+									}
+									break
+								}
+							}
+						}
+					}
+				}
+			}
+			if !emits {
+				continue
+			}
+			// only functions that take the member NAME too (a string parameter): the entry builders, not helpers
+			hasName := false
+			for _, p := range f.Params {
+				if isStringType(p.Type()) {
+					hasName = true
+				}
+			}
+			if !hasName {
+				continue
+			}
+			n++
+			key := "OUTLINE/descend:" + fnKey(f)
+			if recursesOnSub {
+				obs = append(obs, Ob{Key: key, Site: c.Pos(f.Pos()), Verdict: OK, Note: "descends into the member's own members"})
+			} else if soleWrapper(f) {
+				n--
+			} else {
+				obs = append(obs, Ob{Key: key, Site: c.Pos(f.Pos()), Verdict: VIOLATION,
+					Note: fnKey(f) + " builds symbol entries for the members of a table but never looks at the members of a member: `function t.a.f() end` is missing from the outline / the symbol index"})
+			}
+		}
+		obs = append(obs, floor("OUTLINE/descend", "member entry builders", n, 2))
+		return obs
+	},
+}
+
+// soleWrapper: f only forwards to another function of the same name family (FindAllVar -> findAllVarDepth)
+func soleWrapper(f *ssa.Function) bool {
+	calls := 0
+	for _, b := range f.Blocks {
+		for _, ins := range b.Instrs {
+			if _, ok := ins.(*ssa.Call); ok {
+				calls++
+			}
+		}
+	}
+	return len(f.Blocks) == 1 && calls == 1
+}
